@@ -182,6 +182,7 @@ type Baseline struct {
 
 const trackKey = "track"
 
+// Track returns the monitor state of the first installed scenario (single-rollout runs).
 func (w *World) Track() *Track {
 	if t, ok := w.Scratch[trackKey].(*Track); ok {
 		return t
@@ -189,11 +190,20 @@ func (w *World) Track() *Track {
 	return nil
 }
 
+// Tracks returns the monitor state of every installed scenario.
+func (w *World) Tracks() []*Track {
+	ts, _ := w.Scratch[trackKey+"s"].([]*Track)
+	return ts
+}
+
 // InstallMonitors attaches the standard monitor set for scenario s. Call after Build.
 func (w *World) InstallMonitors(s Scenario) *Track {
 	t := &Track{S: s, ReadySeen: map[int32]bool{}, RoutedOK: map[int32]bool{}, LastExposure: -1}
 	t.Base = w.captureBaseline(s)
-	w.Scratch[trackKey] = t
+	if _, ok := w.Scratch[trackKey]; !ok {
+		w.Scratch[trackKey] = t
+	}
+	w.Scratch[trackKey+"s"] = append(w.Tracks(), t)
 	w.Monitors = append(w.Monitors, &stdMonitor{t: t})
 	return t
 }
@@ -289,6 +299,9 @@ func planned(v intstr.IntOrString, replicas int) int {
 func (m *stdMonitor) OnWrite(w *World, wr *Write) {
 	t := m.t
 	s := t.S
+	if !s.Owns(w, wr) {
+		return
+	}
 	switch wr.GVK {
 	case GVKRollout:
 		m.onRollout(w, wr)
@@ -849,7 +862,8 @@ func (m *stdMonitor) onWorkload(w *World, wr *Write) {
 	t.LastExposure = exp
 	t.EpochBreak = false
 	// C03 O3: first step configures traffic => stable Service pinned before the first pods are exposed
-	if exp > 0 && ro != nil && s.HasTraffic() && !s.DisableCanarySvc {
+	if exp > 0 && ro != nil && s.HasTraffic() && !s.DisableCanarySvc && ro.DeletionTimestamp == nil && !ro.Spec.Disabled &&
+		ro.Status.Phase == v1beta1.RolloutPhaseProgressing && progressingReason(ro) == v1alpha1.ProgressingReasonInRolling {
 		steps := stepsOf(ro)
 		sub := ro.Status.GetSubStatus()
 		if len(steps) > 0 && sub != nil && sub.CurrentStepIndex == 1 && (steps[0].Traffic != nil || len(steps[0].Matches) > 0) && !(expectedAll(steps[0], n) && v1beta1.IsRealPartition(ro)) {
